@@ -48,7 +48,16 @@ def make_case(rng, method=None, prec_kind=None, force=None):
     fkind = gen.pick(rng, gen.LABEL_KINDS)
     if force == 'many_reps_str':  # >= 10 occurrences per condition with string labels
         n_fold, reps, ckind = 4, 3, gen.pick(rng, ['str', 'strnum'])
-    clabs = gen.labels(rng, n_cond, ckind)
+    if force == 'many_reps_char':  # single-letter labels, more repetitions than one character can count
+        n_fold, reps, ckind = 4, 3, 'char'
+    if force == 'bool_labels':     # two conditions labelled False / True, several repetitions
+        n_cond, n_fold, reps, ckind = 2, int(rng.integers(3, 5)), 1, 'bool'
+    if ckind == 'char':
+        clabs = [str(c) for c in rng.choice(list('abcdefghij'), size=n_cond, replace=False)]
+    elif ckind == 'bool':
+        clabs = [False, True]
+    else:
+        clabs = gen.labels(rng, n_cond, ckind)
     flabs = gen.labels(rng, n_fold, fkind)
     cond, fold = [], []
     for f in range(n_fold):
@@ -317,7 +326,9 @@ def run(ctx):
     n = ctx.n(150, 2400)
     forced = [('crossnobis', 'none'), ('crossnobis', 'one'), ('crossnobis', 'per_fold'),
               ('poisson_cv', None), ('crossnobis', 'none', 'many_reps_str'),
-              ('poisson_cv', None, 'many_reps_str')]
+              ('poisson_cv', None, 'many_reps_str'), ('crossnobis', 'none', 'many_reps_char'),
+              ('poisson_cv', None, 'many_reps_char'), ('crossnobis', 'one', 'bool_labels'),
+              ('poisson_cv', None, 'bool_labels')]
     for it in range(n):
         if ctx.out_of_time():
             ctx.notes.append(f'time budget reached after {it} cases')
